@@ -109,6 +109,7 @@ type rPeer struct {
 	mirrorSelect   atomic.Bool
 	mirrorLinktest atomic.Bool
 	linktests      atomic.Int64 // Linktest.req of the library answered so far
+	muteLinktest   atomic.Bool  // leave the library's Linktest.req unanswered (a control transaction that stays open)
 }
 
 func newRPeer() *rPeer { return &rPeer{} }
@@ -218,7 +219,7 @@ func (p *rPeer) reader(g *rGen) {
 		g.mu.Lock()
 		g.in = append(g.in, f)
 		g.mu.Unlock()
-		if f.PType == 0 && f.SType == byte(hsms.LinktestReqType) {
+		if f.PType == 0 && f.SType == byte(hsms.LinktestReqType) && !p.muteLinktest.Load() {
 			if p.mirrorLinktest.Load() {
 				p.sendData(g, 1, 2, false, f.SB, 0xFFFF)
 			}
@@ -363,6 +364,8 @@ type rConnOpts struct {
 	WriteTimeout    time.Duration
 	Backoff         time.Duration
 	QueueSize       int
+	Logger          logger.Logger // nil: the no-op logger
+	Trace           bool          // hsms.WithTraceTraffic(true): every frame sent / received is handed to the logger
 }
 
 func rNewConn(p *rPeer, o rConnOpts) (hsmsss.Connection, error) {
@@ -389,6 +392,11 @@ func rNewConn(p *rPeer, o rConnOpts) (hsmsss.Connection, error) {
 		copt(hsms.WithSenderQueueSize(o.QueueSize)), copt(hsms.WithLogger(rNopLogger{})))
 	if err != nil {
 		return nil, err
+	}
+	if o.Logger != nil {
+		if err := cfg.ApplyOptions(copt(hsms.WithLogger(o.Logger)), copt(hsms.WithTraceTraffic(o.Trace))); err != nil {
+			return nil, err
+		}
 	}
 	if o.ValidateSession {
 		if err := cfg.ApplyOptions(copt(hsms.WithSessionIDValidation(true))); err != nil {
